@@ -49,9 +49,9 @@ def _v(rec, clause, sig, *a, **k):
 def units(tier, seed):
     out = []
     if tier == "quick":
-        gen = AL.systems(AL.QUICK_SHAPES, seed=seed, order=2)
+        gen = AL.systems(AL.QUICK_SHAPES, seed=seed, order=2, zeros=True)
     else:
-        gen = AL.systems(AL.THOROUGH_SHAPES, seed=seed, cross=True)
+        gen = AL.systems(AL.THOROUGH_SHAPES, seed=seed, cross=True, zeros=True)
     for names, A, (lb, ub), K, bl in gen:
         if names["shape"].startswith("1x"):
             continue  # C03 quantifies over 2-5 receptors
